@@ -5,6 +5,8 @@
          "procs":[{"pid":n,"nice":i,"ioprio":n,"affinity":[n],"cpuset":[n],"rlimits":[[s,h]×16],["foreign":bool (another user's)]}]}
         {"op":"call","pid":n,["errno":n,]["status_mask":[n]|null,]   (execution context: C errno on entry of the native
                                                                       layer; mask shown by the cached status file)
+                             ["import_pid":n,]["create_pid":n,]      (pid of the process that imported the module / made
+                                                                      the Process object; default: the caller `self`)
                              "req":{"kind":"nice","value":i|null}
                                    |{"kind":"ionice","ioclass":i|null,"value":i|null}
                                    |{"kind":"cpu_affinity","cpus":[i]|null}
@@ -152,7 +154,11 @@ def handle (d : DSt) (j : Json) : R (DSt × Json) := do
     -- the log is per call: start each call with an empty one
     let k0 : Kernel := { d.k with log := [] }
     let x : Ctx := { errnoIn := (← optF asNat j "errno").getD 0, statusMask := ← optF (asList asNat) j "status_mask" }
-    let (o, k') := stepPy cfg k0 pid x req
+    -- who is calling: `self` of the reset line is the calling process; the pids the program remembers from
+    -- import time / object creation differ from it after a fork (default: no fork)
+    let og : Origin := { importPid := (← optF asNat j "import_pid").getD k0.self,
+                         createPid := (← optF asNat j "create_pid").getD k0.self }
+    let (o, k') := stepPyW cfg routing og k0 pid x req
     let spec : Json :=
       if pid = 0 then Json.null
       else match k0.procs pid with
